@@ -669,6 +669,41 @@ func init() {
 		for i := 0; i < c.N/3; i++ {
 			indexCase(c, randU32(c), randSeed(c))
 		}
+		// 3b. the single step key.derive(i) and newMasterKey directly (tag-guarded exports), i over the whole uint32 range
+		for i := 0; i < c.N/3; i++ {
+			k := make([]byte, 32)
+			cc := make([]byte, 32)
+			c.R.Read(k)
+			c.R.Read(cc)
+			idx := randU32(c)
+			if c.R.Intn(4) == 0 {
+				idx = []uint32{0, 1<<31 - 1, 1 << 31, 1<<31 + 1, 1<<32 - 1}[c.R.Intn(5)]
+			}
+			var ib [4]byte
+			binary.BigEndian.PutUint32(ib[:], idx)
+			msg := append(append([]byte{0}, k...), ib[:]...)
+			out := refHmac(cc, msg)
+			nk, ncc, err := wallet.DeriveStepVerif(k, cc, idx)
+			obs := "err " + walletErrKind(err)
+			if err == nil {
+				obs = fmt.Sprintf("ok %s %s", hx(nk), hx(ncc))
+			}
+			c.Emit("wl-step %s %s %d %s %s | %s", hx(k), hx(cc), idx, hx(msg), hx(out), obs)
+			c.Hit("step:" + walletErrKind(err))
+			if (err == nil) != (idx >= 1<<31) {
+				c.Fail("key.derive(%d): err=%v, hardened-only derivation must refuse exactly the indices below 2^31", idx, err)
+			}
+			if err == nil && (!bytes.Equal(nk, out[:32]) || !bytes.Equal(ncc, out[32:])) {
+				c.Fail("key.derive(%d) is not HMAC-SHA512(chain, 0x00||key||be32(i)) split 32/32", idx)
+			}
+			seed := randSeed(c)
+			mo := refHmac([]byte("ed25519 seed"), seed)
+			mk, mcc, merr := wallet.MasterKeyVerif(seed)
+			c.Emit("wl-master %s %s | %s %s", hx(seed), hx(mo), hx(mk), hx(mcc))
+			if merr != nil || !bytes.Equal(mk, mo[:32]) || !bytes.Equal(mcc, mo[32:]) {
+				c.Fail("newMasterKey(%x) is not HMAC-SHA512(\"ed25519 seed\", seed) split 32/32", seed)
+			}
+		}
 		// 4. PubKeyToAddress on arbitrary byte strings
 		for i := 0; i < c.N/3; i++ {
 			pk := make([]byte, []int{0, 1, 31, 32, 32, 32, 33, 64}[c.R.Intn(8)])
